@@ -25,10 +25,38 @@ pub static CAP: AtomicUsize = AtomicUsize::new(1 << 30);
 static PROP: AtomicPtr<u8> = AtomicPtr::new(std::ptr::null_mut());
 static PROP_LEN: AtomicUsize = AtomicUsize::new(0);
 
+/// Directory of the replay files ("<VERIF_DIR>/replays/"), pre-formatted for the emergency path.
+static RDIR: AtomicPtr<u8> = AtomicPtr::new(std::ptr::null_mut());
+static RDIR_LEN: AtomicUsize = AtomicUsize::new(0);
+
 pub fn set_property(id: &str) {
     let b: &'static mut [u8] = Box::leak(id.as_bytes().to_vec().into_boxed_slice());
     PROP_LEN.store(b.len(), Ordering::SeqCst);
     PROP.store(b.as_mut_ptr(), Ordering::SeqCst);
+    let dir = format!("{}/replays/", std::env::var("VERIF_DIR").unwrap_or_else(|_| "/verif".to_string()));
+    let d: &'static mut [u8] = Box::leak(dir.into_bytes().into_boxed_slice());
+    RDIR_LEN.store(d.len(), Ordering::SeqCst);
+    RDIR.store(d.as_mut_ptr(), Ordering::SeqCst);
+}
+
+/// Fatal signals raised while the subject runs (a wild write through one of its `unsafe` blocks, a
+/// stack overflow, an abort from a panic inside a destructor during unwinding) are verdicts about the
+/// subject, reported with the worker's current case like the allocation cap - not harness crashes.
+/// The harness itself is fixed code that runs clean on the unchanged tree.
+pub fn install_fatal_signal_handler() {
+    unsafe {
+        for sig in [libc::SIGSEGV, libc::SIGBUS, libc::SIGILL, libc::SIGABRT, libc::SIGFPE] {
+            let mut sa: libc::sigaction = std::mem::zeroed();
+            sa.sa_sigaction = on_fatal_signal as usize;
+            sa.sa_flags = libc::SA_SIGINFO | libc::SA_ONSTACK | libc::SA_RESETHAND;
+            libc::sigemptyset(&mut sa.sa_mask);
+            libc::sigaction(sig, &sa, std::ptr::null_mut());
+        }
+    }
+}
+
+extern "C" fn on_fatal_signal(sig: libc::c_int, _info: *mut libc::siginfo_t, _ctx: *mut libc::c_void) {
+    emergency(b"fatal-signal", b"-fatal-signal.json\0", b"signal", sig as usize)
 }
 
 unsafe impl GlobalAlloc for Counting {
@@ -65,7 +93,7 @@ fn account(delta: isize) {
             if armed {
                 let base = BASE.try_with(|b| b.get()).unwrap_or(0);
                 if (n - base) as usize > CAP.load(Ordering::Relaxed) {
-                    emergency(delta as usize)
+                    emergency(b"allocation-cap", b"-alloc-cap.json\0", b"request_bytes", delta as usize)
                 }
             }
         }
@@ -76,7 +104,7 @@ thread_local! {
     static BASE: Cell<isize> = const { Cell::new(0) };
 }
 
-fn emergency(req: usize) -> ! {
+fn emergency(sub: &[u8], file_suffix: &[u8], num_key: &[u8], req: usize) -> ! {
     // No allocation from here on.
     unsafe {
         let mut buf = [0u8; 4096];
@@ -93,19 +121,26 @@ fn emergency(req: usize) -> ! {
         // replay file
         let mut path = [0u8; 256];
         let mut pn = 0usize;
-        for b in b"/verif/replays/".iter().chain(prop.iter()).chain(b"-alloc-cap.json\0".iter()) {
-            path[pn] = *b;
-            pn += 1;
+        let rdir = std::slice::from_raw_parts(RDIR.load(Ordering::SeqCst), RDIR_LEN.load(Ordering::SeqCst));
+        for b in rdir.iter().chain(prop.iter()).chain(file_suffix.iter()) {
+            if pn < path.len() - 1 {
+                path[pn] = *b;
+                pn += 1;
+            }
         }
         put(b"{\"property\":\"");
         put(prop);
-        put(b"\",\"sub\":\"allocation-cap\",\"op\":\"");
+        put(b"\",\"sub\":\"");
+        put(sub);
+        put(b"\",\"op\":\"");
         let mut case = [0u8; crate::slot::CASE_MAX];
         let (cl, opp, opl) = crate::slot::read_raw(crate::slot::my_index(), &mut case);
         if !opp.is_null() {
             put(std::slice::from_raw_parts(opp, opl));
         }
-        put(b"\",\"request_bytes\":");
+        put(b"\",\"");
+        put(num_key);
+        put(b"\":");
         let mut digits = [0u8; 20];
         let mut d = 0;
         let mut r = req;
